@@ -126,6 +126,8 @@ pub enum Ty {
     Box(Box<Ty>),
     CowStr,
     CowBytes,
+    /// `Cow<'static, T>` for a sized `T: Clone` (a user type, `Option<..>`, ...)
+    Cow(Box<Ty>),
     BTreeMap(Box<Ty>, Box<Ty>),
     BTreeSet(Box<Ty>),
     BinaryHeap(Box<Ty>),
@@ -321,6 +323,7 @@ impl Program {
             Ty::Box(t) => format!("Box<{}>", s(t)),
             Ty::CowStr => "Cow<'static, str>".to_string(),
             Ty::CowBytes => "Cow<'static, [u8]>".to_string(),
+            Ty::Cow(t) => format!("Cow<'static, {}>", s(t)),
             Ty::BTreeMap(k, v) => format!("BTreeMap<{}, {}>", s(k), s(v)),
             Ty::BTreeSet(t) => format!("BTreeSet<{}>", s(t)),
             Ty::BinaryHeap(t) => format!("BinaryHeap<{}>", s(t)),
@@ -510,6 +513,7 @@ fn subst(ty: &Ty, args: &[Ty], prog: &Program) -> Ty {
             ty.clone()
         }
         // a closed BitVec<store, order> is the same Rust type however it was written
+        Ty::Cow(t) => Ty::Cow(s(t)),
         Ty::BitVecG(a, b) => match (*s(a), *s(b)) {
             (Ty::Prim(p), Ty::Order(m)) => Ty::BitVec(p, m),
             (x, y) => Ty::BitVecG(Box::new(x), Box::new(y)),
@@ -787,6 +791,18 @@ impl<'a> Elab<'a> {
                                 docs: vec![],
                             },
                         ],
+                    }
+                    .into(),
+                    docs: vec![],
+                }
+            }
+            Ty::Cow(t) => {
+                let id = self.register(t);
+                SiType {
+                    path: prelude_path("Cow"),
+                    type_params: vec![tp("T", id)],
+                    type_def: TypeDefComposite {
+                        fields: vec![field(None, id, None, &[])],
                     }
                     .into(),
                     docs: vec![],
